@@ -463,6 +463,10 @@ def pdf_lattice_2d():
     # much of the mass below the smallest cached |gamma| in both populations (effectively neutral corner and edges carry real weight)
     L.append(('biv_lognormal3_near_neutral', PDFs.biv_lognormal, [-3.0, 1.0, 0.3]))
     L.append(('biv_ind_gamma4_near_neutral', PDFs.biv_ind_gamma, [0.2, 0.5, 0.3, 0.4]))
+    # broad exchangeable DFEs (appended last so that the indices used elsewhere stay): real joint mass in the corners where one gamma is below the
+    # smallest and the other above the largest cached value
+    L.append(('biv_lognormal3_broad', PDFs.biv_lognormal, [1.5, 3.0, -0.8]))
+    L.append(('biv_ind_gamma2_broad', PDFs.biv_ind_gamma, [0.3, 30.0]))
     return L
 
 
